@@ -11,6 +11,7 @@
 -/
 import Lc.Base.Bytes
 import Lc.Base.Res
+import Lc.Base.Path
 
 namespace Lc.StageLine
 open Lc
@@ -334,8 +335,10 @@ def parseLineFields (fields : List Bytes) : LineResult :=
   let (e1, errs1) : Entry × List String :=
     if name.length < 2 then (e0, errs0 ++ ["no-name"])
     else if name.head? != some 47 then (e0, errs0 ++ ["not-absolute"])
-    else match parseSource name with
-      | .ok w => ({ e0 with name := name, hasWildcard := w }, errs0)
+    -- (after the fix "add-files names are cleaned") the name is `path.Clean`ed; `/` alone is no name
+    else if (pathClean name).length < 2 then (e0, errs0 ++ ["no-name"])
+    else match parseSource (pathClean name) with
+      | .ok w => ({ e0 with name := pathClean name, hasWildcard := w }, errs0)
       | .error (.err c) => (e0, errs0 ++ [c])
       | .error .panic => (e0, errs0 ++ ["panic"])
   let (e2, errs2) := optionsLoop ltype (fields.drop 2) e1 errs1
